@@ -50,7 +50,44 @@ def config? (a : List Nat) : Option (Config × Nat) :=
       if instantiated c cfg then some (c, cfg) else none
   | _ => none
 
-def drvStep (_ : Unit) (ws : List String) : Unit × String :=
+def outcomeStr (o : Outcome) (status : Status) (oobq : Nat) : String :=
+  s!"{selStr o.sel} done={boolStr o.rest.done} status={status.toNat} early=0 asked={boolStr o.rest.asked} shown={boolStr o.rest.shown} kbd={boolStr o.rest.kbd} oobq={oobq} chk=1 fail={failStr o.rest.fail}"
+
+/-- the session ops: several pairings on one connection object -/
+def sessionStep (st : Option (Config × Conn)) (op : String) (a : List Nat) : Option (Option (Config × Conn) × String) :=
+  match op, a with
+  | "open", [_, _, _, _] =>
+      match config? a with
+      | some (c, _) => some (some (c, Conn.fresh), s!"ok status={(Conn.fresh.reported c.mgr).toNat}")
+      | none => some (st, "bad-op")
+  | "step", [cbhas, io, oob, auth, tk, user] =>
+      match st, tkOf tk, userOf user with
+      | some (c, k), some t, some u =>
+          if cbhas > 1 || io > 255 || oob > 255 || auth > 255 then some (st, "bad-op")
+          else
+            let r := stepPair c k (cbhas == 1) io oob auth t u
+            some (some (c, r.1), outcomeStr r.2.1 (r.1.reported c.mgr) r.2.2)
+      | _, _, _ => some (st, "bad-op")
+  | "peerfail", [] =>
+      match st with
+      | some (c, k) =>
+          let k' := stepH c k .peerFail
+          some (some (c, k'), s!"rsp=0507 status={(k'.reported c.mgr).toNat}")
+      | none => some (st, "bad-op")
+  | "reset", [] =>
+      match st with
+      | some (c, k) =>
+          let k' := stepH c k .reset
+          some (some (c, k'), s!"status={(k'.reported c.mgr).toNat}")
+      | none => some (st, "bad-op")
+  | _, _ => none
+
+def drvStep (st : Option (Config × Conn)) (ws : List String) : Option (Config × Conn) × String :=
+  match (match ws with
+         | op :: rest => (rest.mapM String.toNat?).bind (sessionStep st op)
+         | [] => none) with
+  | some r => r
+  | none =>
   let out : String :=
     match ws with
     | [] => "bad-op"
@@ -81,9 +118,9 @@ def drvStep (_ : Unit) (ws : List String) : Unit × String :=
                 if cbhas > 1 || io > 255 || oob > 255 || auth > 255 then "bad-op"
                 else
                   let o := pair c (cbhas == 1) io oob auth t u
-                  s!"{selStr o.sel} done={boolStr o.rest.done} status={o.status.toNat} early=0 asked={boolStr o.rest.asked} shown={boolStr o.rest.shown} kbd={boolStr o.rest.kbd} oobq={oobQueries c} chk=1 fail={failStr o.rest.fail}"
+                  outcomeStr o o.status (oobQueries c)
             | _, _, _ => "bad-op"
         | _, _ => "bad-op"
-  ((), out)
+  (st, out)
 
-def main : IO Unit := lineLoop drvStep ()
+def main : IO Unit := lineLoop drvStep none
